@@ -1,0 +1,15 @@
+//go:build verif
+
+package initialsizeclass
+
+// Contracts for the govc verifier (/verif). This file contains comments only;
+// it does not change the compiled package.
+//
+// Whatever the statistics say, the timeout handed out for a smaller size class
+// never exceeds the action's own timeout (C07: "a timeout between zero and the
+// action's own").
+
+//@ func (*pageRankStrategyCalculator).getSmallerSizeClassExecutionParameters
+//@   props C07
+//@   ensures never-longer-than-the-timeout-of-the-action: r0.executionTimeout <= originalTimeout
+//@   ensures never-negative: originalTimeout >= 0 && sc.minimumExecutionTimeout >= 0 ==> r0.executionTimeout >= 0
